@@ -4,6 +4,7 @@ import SamVerif.Lemmas.CpeSem
 import SamVerif.Lemmas.TailStmt
 import SamVerif.Lemmas.CpeProg
 import SamVerif.Model.VecRt
+import SamVerif.Model.DataSeg
 /-!
 # C01 — compiled code behaves as the source semantics prescribe: property theorems
 
@@ -30,6 +31,9 @@ K3 (tail recursion → loop, `mir_tail_recursion_rewrite.rs`; loop update `wasm_
 * `tailrec_equiv_seq` (full strength, the loop as the backends run it), `tailrec_equiv_par`,
   `seqAssign_eq_par_partial` / `_counterexample` (why the snapshot of fix c57720b is needed),
   `swap_regression`. History: before fix c57720b (finding C01-F2) `swap(1, 2, 1)` gave 22.
+
+K6 (string data segment, `samlang-ast/src/wasm.rs` `print_byte_vec`): `assemble_printBytes` — the WAT text of
+the shared data segment assembles back to exactly the bytes, for every byte sequence.
 
 K5 (Vec runtime, `libsam.wat` `$__Vec$*`): `wf_push`, `push_contents` (growth preserves contents),
 `get_spec`, `set_spec`, `pop_spec` (in range ⇔ value; out of range — negative, `= len`, `> len` — ⇔ the
@@ -1158,5 +1162,56 @@ example : (push (push (push (push (push empty 1) 2) 3) 4) 5).data.length = 8 := 
 example : VecRt.set (push (push empty 1) 2) 2 9 = .panicOob := by decide
 example : VecRt.set (ofV 7) 1 9 = .panicOob := by decide
 example : VecRt.get (push (push empty 1) 2) (-1) = .panicOob := by decide
+
+end SamVerif.C01
+
+/-! ## K6 — the string data segment as WAT text (`print_byte_vec`) -/
+namespace SamVerif.C01
+open SamVerif.DataSeg
+
+set_option maxRecDepth 100000 in
+theorem alnum_byte : ∀ b : Fin 256, isAsciiAlnum b.val = true →
+    Char.ofNat b.val ≠ '\\' ∧ utf8 (Char.ofNat b.val) = [b.val] := by decide
+
+set_option maxRecDepth 100000 in
+theorem hex_byte : ∀ b : Fin 256, hexVal (hexDigit (b.val / 16)) = some (b.val / 16) ∧
+    hexVal (hexDigit (b.val % 16)) = some (b.val % 16) := by decide
+
+theorem assemble_printByte (b : Nat) (hb : b < 256) (rest : List Char) :
+    assemble (printByte b ++ rest) = (assemble rest).map (b :: ·) := by
+  unfold printByte
+  by_cases ha : isAsciiAlnum b = true
+  · simp only [ha, if_true, List.singleton_append]
+    obtain ⟨hne, hu⟩ := alnum_byte ⟨b, hb⟩ ha
+    simp only at hne hu
+    rw [assemble]
+    · simp [hne, hu]
+    · intro a c r h
+      exact fun _ => hne h
+  · simp only [ha, Bool.false_eq_true, if_false, List.cons_append, List.nil_append]
+    obtain ⟨h1, h2⟩ := hex_byte ⟨b, hb⟩
+    simp only at h1 h2
+    simp only [assemble, h1, h2]
+    have : 16 * (b / 16) + b % 16 = b := by omega
+    cases assemble rest <;> simp [this]
+
+/-- **The data-segment printer is byte-exact**: assembling what `print_byte_vec` prints gives back
+exactly the bytes, for every byte sequence — so the `(offset, length)` pair of every string constant
+addresses that constant's own bytes, whatever precedes it in the shared segment. -/
+theorem assemble_printBytes (bs : List Nat) (h : ∀ b ∈ bs, b < 256) :
+    assemble (printBytes bs) = some bs := by
+  induction bs with
+  | nil => rfl
+  | cons b rest ih =>
+    simp only [printBytes, List.flatMap_cons]
+    rw [assemble_printByte b (h b (List.mem_cons_self ..))]
+    have := ih (fun x hx => h x (List.mem_cons_of_mem _ hx))
+    simp only [printBytes] at this
+    rw [this]; rfl
+
+
+-- "é" = c3 a9: two escapes, two bytes back (the seeded fault C01f printed the Latin-1 characters raw: four bytes)
+example : printBytes [99, 0xc3, 0xa9] = ['c', '\\', 'c', '3', '\\', 'a', '9'] := by decide
+example : assemble ['c', 'Ã', '©'] = some [99, 0xc3, 0x83, 0xc2, 0xa9] := by decide
 
 end SamVerif.C01
